@@ -15,6 +15,16 @@ CLAIMED = {
  "C16": ("origin independence as a representation invariant: canon(v) asserted at every producer (cell invariants on arrays, objects, scopes, signals, literals; canon results of eval, operators, built-ins) and assumed at every consumer", "—"),
  "C17": ("math built-ins: per built-in functional contract (count, type, value), min/max loop invariants over all argument lists, pow == ** lemma, Callable interface contract proved for all 18 implementations", "math.Sin/Cos/Tan/Pow uninterpreted; Abs/Sqrt/Round by IEEE stub semantics"),
 }
+CLAIMED.update({
+ "C01": ("syntax trees: every tree the parser builds satisfies the ladder shape invariant (a binary node's left child at or above the operator's level, right child strictly above: precedence and left association; prefix operators above '**'; suffixes tightest), every ladder function stops only where its level cannot continue (follow sets), else binds to the nearest if", "that the leaves of the tree are the consumed tokens in order (yield), uniqueness of the tree and the print/reparse corollaries are not machine-checked"),
+ "C08": ("front end: termination of every lexer/parser loop and of the mutual recursion (lexicographic measures), no abnormal termination, every diagnostic raises the error flag, reserved names == registered built-ins, at most 255 parameters, nothing is interpreted once the flag is up (main.run), lenient ';' / '}' still flag", "'derivable => accepted' and 'first diagnostic at the first non-viable token' are reached only through follow-set and error-at-lookahead obligations; LL(1) completeness is not machine-checked"),
+ "C09": ("tokens: scanToken handles exactly the maximal-munch piece at s.start (end == mmEnd for every piece kind), classifies it by the published table (keyword table proved equal to the README list), sets lexeme/literal/line, never drops a piece silently; ScanTokens' pieces are contiguous, lines are 1+newlines, one EOF closes the list", "uniqueness of the maximal-munch partition and the global 'token list == pieces' statement are paper consequences of the per-piece contract"),
+ "C10": ("numeric literals: isDigit/transliteration per code point, ConvertBanglaDigitsToASCII == trStr (loop invariant), number() consumes D+(.D+)? maximally, the value is ParseFloat(tr(lexeme)), a range error is a diagnostic without a token; run-time coercions use the same function", "correct rounding and ErrRange of strconv.ParseFloat are trusted"),
+ "C18": ("invariances, reduced to proved contracts: blanks/comments produce no token (scanToken skip rows), both digit scripts go through one transliteration, && / || and their word forms get the same token types (keyword table + pieceType), Grouping returns exactly its child's result, unselected arms produce no event", "the two-run statement is relational; the lifting from these single-run contracts is a paper argument"),
+ "C19": ("exit status and streams: main/runFile/run contracts (64 for bad usage, 1 for an unreadable file with nothing run, 65 iff syntax error with nothing run, 70 iff runtime error, 0 otherwise with empty stderr), stdin model: each ইনপুট delivers exactly the next line, also an unterminated last one", "os/bufio/filepath are stubs; the stdin model (lines, reader read-ahead) is an assumption"),
+ "C20": ("REPL: both flags are down whenever a line is read; run writes no package-level variable other than the two flags (frame over the inferred modifies set); the echo rule of ExpressionStatement", "bufio.Scanner's line-length limit is outside the model"),
+ "C07": ("no abnormal termination: one safety obligation per instruction that can panic (nil dereference, index/slice bounds, type assertion, interface comparison of uncomparable types, shift count, integer division, nil-map write, makeslice) in every function of the repository", "stack and memory exhaustion are not modelled (unbounded recursion is a known finding by design of the language)"),
+})
 NOTAPP = {}
 props=[json.loads(l) for l in open('/verif/properties.jsonl')]
 log=subprocess.run(['git','-C','/repo','log','--format=%h %s'],capture_output=True,text=True).stdout.strip().split('\n')
